@@ -117,6 +117,8 @@ class OpsMixin:
             req.accepted = False
             if not expect:
                 self.violate("C09.type", f"{method} rejected with {type(e).__name__}: {e} although nothing is wrong (locked={pr.locked} closed={pr.closed})")
+                if gname is not None and gname in pr.dead_groups:
+                    self.violate("C07.name_free", f"{method}(group_name={gname!r}) rejected with {type(e).__name__} although that group was cancelled and its name must be free")
             elif not any(isinstance(e, c) for c in expect):
                 self.violate("C09.type", f"{method} raised {type(e).__name__}, acceptable: {sorted(c.__name__ for c in expect)}")
             after = self.snapshot(pr)
@@ -156,6 +158,7 @@ class OpsMixin:
         if name in pr.dead_groups:
             pr.dead_groups.remove(name)
             self.sit["name_reused"] += 1
+            self.sit["C07.name_reused_ok"] += 1
         new = asyncio.all_tasks() - before_tasks
         if len(new) == 1:
             req.meta = next(iter(new))
@@ -657,6 +660,7 @@ class OpsMixin:
             self.violate("C14.ids", f"stop({n}) raised {type(e).__name__}: {e} (running per model: {running}, cancelled before first step: {unknown})")
             return
         self.ev("op_ret", "stop", pr.idx, tuple(got))
+        pr.stop_calls += 1
         if unknown:
             # ids cancelled before their first step may or may not still be listed as running;
             # remove them from the comparison (their fate is C02's business)
